@@ -7,6 +7,7 @@ def parseMErr (s : String) : Option MErr :=
   if s == "nil" then some .nil
   else if s == "closed" then some .closed
   else if s == "wclosed" then some .wrappedClosed
+  else if s == "bn" then some (.block 1)        -- a negative Delay: a pause that is over already, finite like any non-zero one
   else match s.toList with
     | 'e' :: r => (String.ofList r).toNat?.map .plain
     | 'b' :: r => (String.ofList r).toNat?.map .block
@@ -94,6 +95,9 @@ def mocksStep (s : MSt) (f : List String) : MSt × List String :=
     | _ => (s, ["bad-op ecall"])
   | ["rsstub", _, _] => (s, ["rsstub private"])
   | ["pubstub", e, quit] => (s, ["pubstub " ++ (if quit == "closed" then "canceled" else e)])
+  | [op@"pubstubh", e, quits] | [op@"substubh", e, quits] =>
+    -- one stub called several times: every call answers from the same fix, a given quit signal yields ErrCanceled for that call only
+    (s, [op ++ " " ++ ",".intercalate ((quits.splitOn ",").map fun q => if q == "closed" then "canceled" else e)])
   | ["substub", e, quit, fs] =>
     (s, ["substub " ++ (if fs == "none" then "panic" else if quit == "closed" then "canceled" else e)])
   | op :: _ => (s, ["bad-op " ++ op])
